@@ -906,7 +906,7 @@ def expected_help(cmds, long, tbl):
 
 def check_C17(ctx):
     rng = ctx.rng
-    cases, meta = [], []
+    cases, meta, printed = [], [], []
     defs = {"bool": [["false"], ["true"]], "string": [[""], ["dflt"], ['q"uo\\te'], ["build-%d"], ["100%"]], "int": [["0"], ["-42"]], "float": [["0"], ["2.5"], ["1e21"]],
             "strings": [[], ["a", "b c"], ["%s", "x%"]], "ints": [[], ["4", "5"]], "floats": [[], ["0.5", "100000"]]}
     floats = set()
@@ -954,6 +954,21 @@ def check_C17(ctx):
         cases.append({"op": "run", "env": env, "version": None, "root": root, "argv": path + [rng.choice(["-h", "--help"])],
                       "repeat": 2 if bare(root) and rng.random() < 0.5 else 1})
         meta.append((cmds, True))
+        # the same help printed by the command's own Action through the public methods PrintHelp / PrintLongHelp: every
+        # command on the path is given a spec that accepts the empty line, the addressed one an Action that prints
+        if rng.random() < 0.35:
+            root2 = copy.deepcopy(root)
+            cmds2, cur2 = [root2], root2
+            for t in path:
+                cur2 = [x for x in cur2["subs"] if t in x["name"].split()][0]
+                cmds2.append(cur2)
+            for c2 in cmds2:
+                o2 = [d for d in c2["decls"] if d["t"] == "opt"]
+                a2 = [d for d in c2["decls"] if d["t"] == "arg"]
+                c2["spec"] = (("[OPTIONS] " if o2 else "") + " ".join("[%s]" % x["name"] for x in a2)).strip()
+            kind = rng.choice(["help", "longhelp"])
+            cmds2[-1]["action"] = {"k": kind}
+            printed.append(({"op": "run", "env": env, "version": None, "root": root2, "argv": list(path)}, cmds2, kind == "longhelp"))
         for d in core.all_decls(root):
             if d["kind"] in ("float", "floats"):
                 floats.update(d["def"])
@@ -979,10 +994,30 @@ def check_C17(ctx):
             ctx.violation("help", "help of %r differs at line %d: got %r, expected %r" %
                           (" ".join(x["name"].split()[0] for x in cmds), k, a["stderr"][k:k + 1], want[k:k + 1]), case=c)
     ctx.stream("declaration trees, long help", 0)
+    # help and version printed by a callback through PrintHelp(), PrintLongHelp(), PrintVersion()
+    pcases = [p_[0] for p_ in printed]
+    for text in ("v9", "1.0\nsecond line"):
+        for pol in (0, 1, 2):
+            pcases.append({"op": "run", "env": {}, "version": {"name": "V version", "text": text}, "argv": [],
+                           "root": gen.mkcmd("app", decls=[], policy=pol, action={"k": "version"}), "_version": text})
+    number(pcases, start=len(cases))
+    pres = correspond(ctx, pcases, ["outcome", "trace"], "help and version printed by a callback")
+    for k_, c in enumerate(pcases):
+        a, _ = pres[c["id"]]
+        if "_version" in c:
+            want, what = c["_version"].split("\n"), "PrintVersion()"
+        else:
+            want, what = expected_help(printed[k_][1], printed[k_][2], tbl), "PrintLongHelp()" if printed[k_][2] else "PrintHelp()"
+        if a["stderr"] != want or a["outcome"] != ("ret", None) or not a["trace"]:
+            k = next((i for i, (x, y) in enumerate(zip(a["stderr"], want)) if x != y), min(len(a["stderr"]), len(want)))
+            ctx.violation("help", "%s called by the Action of %r: line %d is %r, expected %r (end %r, callbacks %r)" %
+                          (what, c["argv"], k, a["stderr"][k:k + 1], want[k:k + 1], a["outcome"], a["trace"]), case=c)
     ctx.sample({"argv": cases[0]["argv"], "help": res[cases[0]["id"]][0]["stderr"][:6]})
     return ("random declaration trees (depth 2, options with short/long/both names, every built-in kind and default, "
             "environment lists, multi-line and padded descriptions, HideValue, Hidden, LongDesc) x --help on a random "
-            "command; the whitespace-normalised text is compared with the model and with the rows the property lists")
+            "command; the whitespace-normalised text is compared with the model and with the rows the property lists; "
+            "a third of the trees again with the addressed command's Action calling PrintHelp() or PrintLongHelp() "
+            "itself, and PrintVersion() under the three policies")
 
 
 # =======================================================================================
